@@ -37,7 +37,7 @@ TRUSTED_BASE = [
     'no axioms: every property theorem prints "Closed under the global context" (re-read on every run)',
     'tools/gen_facts.py: Python-ast translator of constants and loop skeleton (fail-closed)',
     'tools/gen_sched.py, gen_jobs.py, gen_builder.py, gen_taskmgr.py, gen_prod.py, gen_sun.py, gen_trig.py, gen_parse.py, '
-    'gen_dst.py, gen_instant.py, gen_init.py: Python-ast translators of the source into Gallina, statement by statement (fail-closed; the '
+    'gen_dst.py, gen_instant.py, gen_init.py, gen_removeall.py: Python-ast translators of the source into Gallina, statement by statement (fail-closed; the '
     'translation rules they trust are listed in their docstrings and in DESIGN.md 11.6); the generated files are proved '
     'equal to the hand-written models on every run (Gen*Eq.v)',
     'correspondence harness: virtual clock/loop, observation and canonicalisation of the implementation',
